@@ -5,7 +5,8 @@ Open Scope N_scope.
 (* One request against one FS handler.
    Observables: what the PathRewrite function returned (None when there is no rewriter), the response status
    (-1 = the handler panicked), the names passed to the instrumented fs.FS in order (fs.FS mode), and for the
-   default filesystem the absolute name of the file whose bytes were served (identified by its unique content). *)
+   default filesystem the absolute (clean) name of the file whose bytes were served (identified by its unique
+   content; compared with the model's names modulo "." and empty segments). *)
 Inductive c23case :=
 | CFs (cfg : fscfg) (sfx : option bytes) (reqPath host : bytes)
       (rewritten : option bytes) (status : Z) (opened : list bytes) (served : option bytes).
@@ -27,12 +28,13 @@ Definition corr_ok (c : c23case) : bool :=
       | Panicked => (status =? -1)%Z
       | Reject400 => (status =? 400)%Z && beq (concat opened) [] && obeq served None
       | Reject500 => (status =? 500)%Z && beq (concat opened) [] && obeq served None
-      | Serve _ filePath _ =>
+      | Serve path filePath _ =>
           negb (status =? -1)%Z && negb (status =? 400)%Z && negb (status =? 500)%Z &&
           (if osfs cfg
-           then match served with Some f => mem f names | None => true end
+           then match served with Some f => mem f (map lex_clean names) | None => true end
            else match opened with
-                | first :: _ => beq first (match sfx with Some s => filePath ++ s | None => filePath end)
+                | first :: _ => beq first (match (if trimmedNonEmpty path then sfx else None) with
+                                           | Some s => filePath ++ s | None => filePath end)
                                 && forallb (fun n => mem n names) opened
                 | [] => false
                 end)
